@@ -626,7 +626,8 @@ func (obj *Flavor) LoadForm() slip.Object {
 func (obj *Flavor) inheritedVar(k string, v slip.Object) bool {
 	for _, f := range obj.inherit {
 		if iv, has := f.defaultVars[k]; has {
-			return v == iv
+			// A list default can not be compared with ==.
+			return slip.ObjectEqual(v, iv)
 		}
 	}
 	return false
